@@ -235,6 +235,27 @@ def list_of_nat_lists(xs):
     return "[" + "; ".join(C.nat_list(x) for x in xs) + "]" if xs else "(@nil (list nat))"
 
 
+def _is_plain_int(x):
+    return isinstance(x, int) and not isinstance(x, bool)
+
+
+def _mside(x):
+    if _is_plain_int(x):
+        return f"(SInt ({x})%Z)"
+    if isinstance(x, (list, tuple)) and all(_is_plain_int(y) for y in x):
+        return "(SList [" + "; ".join(f"({y})%Z" for y in x) + "])"
+    raise ValueError(f"untranslatable entry {x!r} of a tensordot modes argument")
+
+
+def marg_lit(x):
+    """Gallina `marg` literal (Model/Tenalg.v) of a Python modes / batched_modes argument; fails closed on any other form"""
+    if _is_plain_int(x):
+        return f"(MInt ({x})%Z)"
+    if isinstance(x, (list, tuple)):
+        return "(MSeq [" + "; ".join(_mside(y) for y in x) + "])"
+    raise ValueError(f"untranslatable tensordot modes argument {x!r}")
+
+
 def split_arrays(d):
     """operands of a descriptor by role"""
     a, o, fn = d["arrays"], d["opts"], d["fn"]
@@ -361,6 +382,11 @@ def coq_ops(d, be):
         return f"(OOuter {b})"
     if fn == "batched_outer":
         return f"(OBOuter {b})"
+    if fn == "tensordot" and ("raw_modes" in o or "raw_batched" in o):
+        # the argument forms go to the model as given to the code: Model/Tenalg.v validate_contraction normalises them
+        rm = o["raw_modes"] if "raw_modes" in o else [list(o["modes"][0]), list(o["modes"][1])]
+        rb = o["raw_batched"] if "raw_batched" in o else [list(o["batched"][0]), list(o["batched"][1])]
+        return f"(OTdotRaw {b} {marg_lit(rm)} {marg_lit(rb)})"
     if fn == "tensordot":
         return (f"(OTdot {b} {C.nat_list(o['modes'][0])} {C.nat_list(o['modes'][1])} "
                 f"{C.nat_list(o['batched'][0])} {C.nat_list(o['batched'][1])})")
@@ -506,6 +532,18 @@ def gen_descriptors(tier, rng):
                     else:
                         Ms.append(g.arr((J, s[m]), cplx))
                 yield D("multi_mode_dot", [g.arr(s, cplx)] + Ms, modes=(None if vname == "none" else modes), skip=skip, transpose=tr)
+
+    # malformed multi_mode_dot requests (both backends must reject, as the model does): a size mismatch with both sizes >= 2
+    # (np.einsum would broadcast a size-1 axis: outside the model), a mode beyond the order, a 3-D operand; a malformed operand
+    # that is skipped is never inspected
+    yield D("multi_mode_dot", [g.arr((2, 3, 2)), g.arr((2, 2)), g.arr((4, 2))], valid=False, modes=[0, 1], skip=None, transpose=False)
+    yield D("multi_mode_dot", [g.arr((2, 3, 2)), g.arr((2,)), g.arr((2,))], valid=False, modes=[0, 1], skip=None, transpose=False)
+    yield D("multi_mode_dot", [g.arr((2, 3, 2)), g.arr((2,)), g.arr((4, 3))], valid=False, modes=[0, 2], skip=None, transpose=False)
+    yield D("multi_mode_dot", [g.arr((2, 3)), g.arr((2, 2)), g.arr((2, 3))], valid=False, modes=[0, 2], skip=None, transpose=False)
+    yield D("multi_mode_dot", [g.arr((2, 3)), g.arr((2, 2, 2))], valid=False, modes=[0], skip=None, transpose=False)
+    yield D("multi_mode_dot", [g.arr((2, 3, 2)), g.arr((3, 2)), g.arr((3, 4))], valid=False, modes=None, skip=None, transpose=True)
+    yield D("multi_mode_dot", [g.arr((2, 3)), g.arr((2, 2)), g.arr((5, 7))], modes=None, skip=1, transpose=False)
+    yield D("multi_mode_dot", [g.arr((2, 3)), g.arr((2, 2)), g.arr((5, 7, 2))], modes=[0, 4], skip=1, transpose=True)
 
     # ---- khatri_rao
     row_sets = list(shapes([1, 2, 3], dims)) + ([] if quick else list(shapes([4], [1, 2, 3])))
@@ -693,6 +731,50 @@ def gen_descriptors(tier, rng):
             yield D("tensordot", [g.arr(tuple(sa), cplx), g.arr(tuple(sb), cplx)], modes=[[i], [j]], batched=[[], []],
                     raw_modes=[i, j], raw_batched=())
 
+    # further argument forms: negative batched ints / entries, a scalar paired with a list, two pairs with mixed signs
+    for _ in range(20 if quick else 100):
+        na, nb_ = rng.randint(1, 3), rng.randint(1, 3)
+        form = rng.choice(["neg_int_batched", "neg_list_batched", "mixed_pair", "two_pairs_mixed_signs"])
+        sa = [rng.choice(dims) for _ in range(na)]
+        sb = [rng.choice(dims) for _ in range(nb_)]
+        cplx = rng.random() < 0.15
+        if form == "neg_int_batched":      # batched_modes=-k: mode na-k of tensor1 with mode nb-k of tensor2
+            k = rng.randint(1, min(na, nb_))
+            sb[nb_ - k] = sa[na - k]
+            yield D("tensordot", [g.arr(tuple(sa), cplx), g.arr(tuple(sb), cplx)], modes=[[], []], batched=[[na - k], [nb_ - k]],
+                    raw_modes=(), raw_batched=-k)
+        elif form == "neg_list_batched":
+            i, j = rng.randrange(na), rng.randrange(nb_)
+            sb[j] = sa[i]
+            yield D("tensordot", [g.arr(tuple(sa), cplx), g.arr(tuple(sb), cplx)], modes=[[], []], batched=[[i], [j]],
+                    raw_modes=(), raw_batched=[[i - na], [j]])
+        elif form == "mixed_pair":         # modes=(i, [j]): a scalar with a one-element list
+            i, j = rng.randrange(na), rng.randrange(nb_)
+            sb[j] = sa[i]
+            yield D("tensordot", [g.arr(tuple(sa), cplx), g.arr(tuple(sb), cplx)], modes=[[i], [j]], batched=[[], []],
+                    raw_modes=[i - na, [j]], raw_batched=())
+        else:
+            if na < 2 or nb_ < 2:
+                continue
+            i1, i2 = rng.sample(range(na), 2); j1, j2 = rng.sample(range(nb_), 2)
+            sb[j1], sb[j2] = sa[i1], sa[i2]
+            yield D("tensordot", [g.arr(tuple(sa), cplx), g.arr(tuple(sb), cplx)], modes=[[i1, i2], [j1, j2]], batched=[[], []],
+                    raw_modes=[[i1 - na, i2], [j1, j2 - nb_]], raw_batched=())
+    # malformed requests in raw form: the model's validate_contraction and the code must both reject
+    A23, B32, B23 = (2, 3), (3, 2), (2, 3)
+    yield D("tensordot", [g.arr(A23), g.arr(B32)], valid=False, modes=None, batched=None, raw_modes=[[-3], [0]], raw_batched=())   # -3 is no mode of an order-2 tensor
+    yield D("tensordot", [g.arr(A23), g.arr(B32)], valid=False, modes=None, batched=None, raw_modes=[[1], [-3]], raw_batched=())
+    yield D("tensordot", [g.arr(A23), g.arr(B32)], valid=False, modes=None, batched=None, raw_modes=3, raw_batched=())              # more modes than the orders
+    yield D("tensordot", [g.arr(A23), g.arr(B23)], valid=False, modes=None, batched=None, raw_modes=1, raw_batched=())              # last of A (3) with first of B (2)
+    yield D("tensordot", [g.arr(A23), g.arr(B32)], valid=False, modes=None, batched=None, raw_modes=[[1, 0], [0]], raw_batched=())  # different numbers of modes
+    yield D("tensordot", [g.arr(A23), g.arr(B23)], valid=False, modes=None, batched=None, raw_modes=[0, [1], 1], raw_batched=())    # flat form with a nested list
+    yield D("tensordot", [g.arr(A23), g.arr(B23)], valid=False, modes=None, batched=None, raw_modes=(), raw_batched=2)              # batched int out of range
+    yield D("tensordot", [g.arr(A23), g.arr(B23)], valid=False, modes=None, batched=None, raw_modes=(), raw_batched=-3)
+    yield D("tensordot", [g.arr(A23), g.arr(B32)], valid=False, modes=None, batched=None, raw_modes=[[-1], [-1]], raw_batched=())   # sizes 3 and 2
+    yield D("tensordot", [g.arr(A23), g.arr(B32)], valid=False, modes=None, batched=None, raw_modes=[[1], [0]], raw_batched=[[0], [-1], [0]])
+    # modes=-k (a negative int) contracts nothing: the outer product
+    yield D("tensordot", [g.arr((2, 3)), g.arr((3,))], modes=[[], []], batched=[[], []], raw_modes=-1, raw_batched=())
+
     # ---- MTTKRP: every shape x every mode x weights on/off (complex on a subset); three variants
     for s in all_shapes:
         for mode in range(len(s)):
@@ -874,6 +956,53 @@ def run_shards_robust(cases, shard=SHARD):
     return failing, n_eval, hard, skipped
 
 
+# ----------------------------------------------------------------------------- source tie (ast -> Gallina, every run)
+def source_tie(chk):
+    """regenerate the final_modes loop of core tensordot from the current tensorly source (harness/props/C02_ast.py) and re-prove,
+    for all orders and mode lists, that it is Model.Tenalg.final_modes_loop; fail closed: a failed lemma or a source the
+    translator cannot read is a broken tie (verdict); a coqc killed by the loaded machine is retried once, then noted"""
+    import shutil, subprocess
+    from harness.props import C02_ast
+    d = os.path.join(C.BUILD, "gen", f"C02_{os.getpid()}"); os.makedirs(d, exist_ok=True)
+
+    def coqc(name, text):
+        fn = os.path.join(d, name)
+        open(fn, "w").write(text)
+        r = subprocess.run(["timeout", "300", "coqc", "-w", "none", "-R", os.path.join(C.COQ, "theories"), "TLV", fn], capture_output=True, text=True, cwd=d)
+        if r.returncode == 0:
+            return "proved", ""
+        if r.returncode == 1 and "Error" in (r.stdout + r.stderr):
+            return "failed", (r.stdout + r.stderr)[-900:]
+        return "skipped", f"coqc rc {r.returncode} (killed / timeout)"
+    try:
+        status, detail, text = "failed", "", ""
+        try:
+            for swap in (False, True):     # the source may declare its two counters in either order
+                text = C02_ast.generate(C.REPO, swap=swap)
+                st, det = coqc(f"FinalModes{int(swap)}.v", text)
+                if st == "skipped":
+                    st, det = coqc(f"FinalModes{int(swap)}.v", text)
+                if st == "proved":
+                    status = "proved"; break
+                if st == "skipped":
+                    status = "skipped"; detail = det; break
+                detail = det
+        except C02_ast.Untranslatable as e:
+            status = "broken (untranslatable source)"
+            chk.broken.append({"what": "source tie final_modes_source_is_model broken: the ast -> Gallina translator does not cover the current "
+                                       "for-loop building final_modes in core_tenalg/_batched_tensordot.py", "detail": str(e)})
+        chk.checker_cmds.append("coqc on generated build/gen/C02_*/FinalModes*.v: final_modes_source_is_model (tensorly source -> Gallina)")
+        if status == "failed":
+            chk.broken.append({"what": "source-derived lemma final_modes_source_is_model failed: the final_modes loop of core tensordot in the tensorly "
+                                       "source no longer computes Model.Tenalg.final_modes_loop (the final transpose C02_tensordot_core is proved about)",
+                               "detail": detail + "\n--- generated ---\n" + "\n".join(l for l in text.splitlines() if l.startswith("  let '")) })
+        elif status == "skipped":
+            chk.notes.append("source tie final_modes_source_is_model skipped: " + detail)
+        chk.cov["source_derived_lemmas"] = {"final_modes_source_is_model": status}
+    finally:
+        shutil.rmtree(d, ignore_errors=True)
+
+
 # ----------------------------------------------------------------------------- run
 TIMEOUTS = []
 
@@ -904,6 +1033,7 @@ def run(chk):
     C.load_known = _load_known_merged
     rng = random.Random(chk.seed)
     chk.build_proofs()
+    source_tie(chk)
     C.reset_backends()
     cases, meta = [], []
     descs = []
@@ -949,7 +1079,12 @@ def run(chk):
             c_out = out
             if out[0] == "ok" and cplx and not np.iscomplexobj(out[1]):
                 c_out = ("ok", np.asarray(out[1]).astype(np.complex128))
-            cases.append(case_lit(cid, coq_ops(d, be), d["arrays"], c_out, cplx or (out[0] == "ok" and np.iscomplexobj(out[1]))))
+            try:
+                oplit = coq_ops(d, be)
+            except ValueError as e:   # a broken tie, never ignored
+                chk.broken.append({"what": "corr:C02 argument form not translatable to the model", "detail": str(e)})
+                continue
+            cases.append(case_lit(cid, oplit, d["arrays"], c_out, cplx or (out[0] == "ok" and np.iscomplexobj(out[1]))))
             meta.append((d, be))
         # the two backends (and the memory variant) return the same tensor
         oks = [(be, out[1]) for be, out, _ in results if out[0] == "ok" and not isinstance(out[1], tuple)]
@@ -975,7 +1110,7 @@ def run(chk):
     chk.cov["rule"] = ("mode_dot and MTTKRP: every shape of order 2-4 over mode sizes {1,2,3} x every mode x {matrix, vector, transposed} / weights on-off "
                        "(quick thins order-4 MTTKRP); multi_mode_dot: those shapes x modes in {None, sorted, reversed, partial, shuffled} x skip in {None, each operand} "
                        "with random matrix/vector kinds and transpose; khatri_rao: every row tuple of 1-3 matrices over {1,2,3} x weights x mask x skip; kronecker, inner, "
-                       "outer, batched_outer, batched tensordot (all contraction/batch selections up to two modes each, paired in arbitrary order), higher_order_moment, "
+                       "outer, batched_outer, batched tensordot (all contraction/batch selections up to two modes each, paired in arbitrary order; the int / negative / scalar-pair / flat argument forms and malformed requests in those forms), higher_order_moment, "
                        "sample_khatri_rao: structured random streams from the single seeded PRNG; operands are integer valued (float64/int64) or Gaussian integers (complex128), "
                        "every case under the core and the einsum backend (MTTKRP also the memory variant); distinct key = (function, backend, operand shapes, options, real/complex); "
                        "non-trivial = some operand has more than one entry")
@@ -986,7 +1121,7 @@ def run(chk):
         chk.disagreement("corr:C02 (Model/Tenalg.v vs tensorly/tenalg)", describe(d, be))
     chk.assumptions = ["np.dot / np.kron / np.einsum / broadcasting multiply / reshape / transpose behave as modelled at index level in Model/Tenalg.v and Base/Tensor.v (checked on this run's cases)",
                        "floating-point rounding is outside the model; integer-valued operands keep every partial sum far below 2^53 so the comparison is exact",
-                       "size-0 modes, negative modes of mode_dot, repeated modes with vector operands (Python reaches negative indices there), khatri_rao of 1-D operands, higher_order_moment of order 0 (the code returns the mean, the model rejects), weights / masks that NumPy broadcasts in a degenerate way (weights longer than a single column R = 1, masks with size-1 axes or a flat mask under the einsum backend, which the core backend accepts and np.einsum rejects) are outside the model and not generated; the int / negative / flat forms of tensordot's modes and batched_modes are normalised by the harness (explicit non-negative lists go to the model), so tenalg_utils._validate_contraction_modes is covered by the comparison of results, not modelled"]
+                       "size-0 modes, negative modes of mode_dot, repeated modes with vector operands (Python reaches negative indices there), khatri_rao of 1-D operands, einsum multi_mode_dot with a size-1 operand axis on a larger mode (np.einsum broadcasts, core and model reject), higher_order_moment of order 0 (the code returns the mean, the model rejects), weights / masks that NumPy broadcasts in a degenerate way (weights longer than a single column R = 1, masks with size-1 axes or a flat mask under the einsum backend, which the core backend accepts and np.einsum rejects) are outside the model and not generated; the int / negative / scalar / flat forms of tensordot's modes and batched_modes go to the model in the form given to the code (Model/Tenalg.v validate_contraction mirrors tenalg_utils._validate_contraction_modes; an untranslatable form is reported as a broken tie); repeated modes on one tensor, bool / NumPy-integer mode arguments are not generated"]
     chk.trusted = ["explicit-loop NumPy reference formulas in harness/props/C02.py (spec-side transcription used by the Python predicate)",
                    "higher_order_moment is compared as n_samples * moment (the division by n_samples is checked to be integer-exact to 1e-9)"]
     return chk.finish(CLASSIFIERS)
